@@ -161,6 +161,7 @@ static int take_fail (const char *name) {
 		if (!strcmp (w_fail[i], name)) { w_fail[i][0] = 0; return 1; }
 	return 0;
 }
+static int is_armed (const char *name) { for (int i = 0; i < 16; i++) if (!strcmp (w_fail[i], name)) return 1; return 0; }
 static void arm_fail (const char *name) {
 	for (int i = 0; i < 16; i++)
 		if (!w_fail[i][0]) { snprintf (w_fail[i], sizeof w_fail[i], "%s", name); return; }
@@ -224,10 +225,26 @@ int __wrap_socket (int d, int t, int p) {
 	if (a_on && take_fail ("socket")) { errno = EMFILE; return -1; }
 	return __real_socket (d, t, p);
 }
+/* A new thread is held at its very start until the creating call has returned: the library's thread
+ * proxy touches thread-local storage (and may allocate) concurrently with p_uthread_create_full()
+ * otherwise, and the order of allocator calls would depend on the scheduler. */
+static volatile int th_go;
+struct tramp { void *(*f) (void *); void *arg; };
+static void *trampoline (void *p) {
+	struct tramp t = *(struct tramp *) p;
+	free (p);
+	while (!__atomic_load_n (&th_go, __ATOMIC_SEQ_CST)) usleep (200);
+	return t.f (t.arg);
+}
 int __real_pthread_create (pthread_t *t, const pthread_attr_t *a, void *(*f) (void *), void *arg);
 int __wrap_pthread_create (pthread_t *t, const pthread_attr_t *a, void *(*f) (void *), void *arg) {
 	if (a_on && take_fail ("pthread_create")) return EAGAIN;
-	return __real_pthread_create (t, a, f, arg);
+	if (!a_on) return __real_pthread_create (t, a, f, arg);
+	struct tramp *tp = malloc (sizeof *tp);
+	tp->f = f; tp->arg = arg;
+	int r = __real_pthread_create (t, a, trampoline, tp);
+	if (r != 0) free (tp);
+	return r;
 }
 int __real_pthread_key_create (pthread_key_t *k, void (*d) (void *));
 int __wrap_pthread_key_create (pthread_key_t *k, void (*d) (void *)) {
@@ -379,7 +396,8 @@ static int dl_pending;
 #define OKS(i) ((i) >= 0 && (i) < NSLOT)
 #define NEED(i, T) do { if (!OKS (i) || S[i].t != (T)) return '-'; } while (0)
 #define EMPTY(i) do { if (!OKS (i) || S[i].t != T_NONE) return '-'; } while (0)
-#define ERRARG(e, d) do { if ((e) >= 0 && (!OKS (e) || (S[e].t != T_NONE && S[e].t != T_ERR) || (e) == (d))) return '-'; } while (0)
+#define ERRARG2(e, d, d2) do { if ((e) >= 0 && (!OKS (e) || (S[e].t != T_NONE && S[e].t != T_ERR) || (e) == (d) || (e) == (d2))) return '-'; } while (0)
+#define ERRARG(e, d) ERRARG2 (e, d, -2)
 #define LIB() do { if (!lib_inited) return '-'; } while (0)
 
 static void clr (int i) { memset (&S[i], 0, sizeof S[i]); }
@@ -519,32 +537,32 @@ static const int ini_layout[3][8][8] = {
 	{ { 0, 1, -1 }, { -1 } },                              /* ini1: [s0] k0 k1 */
 	{ { 0, 1, -1 }, { -2 }, { 2, 3, 5, -1 }, { -1 } },     /* ini2: [s0] k0 k1   [s1] (empty)   [s2] k2 k3 k5 */
 };
-static int ini_nkeys_expected (int f) { int n = 0; for (int s = 0; s < 8 && ini_layout[f][s][0] != -1; s++) for (int k = 0; k < 8 && ini_layout[f][s][k] >= 0; k++) n++; return n; }
-static int ini_keys_present (PIniFile *file, int f, int sec) { int n = 0;
+/* every expected (section, key) pair is there */
+static int ini_complete (PIniFile *file, int f) {
 	for (int s = 0; s < 8 && ini_layout[f][s][0] != -1; s++) for (int k = 0; k < 8 && ini_layout[f][s][k] >= 0; k++)
-		if ((sec < 0 || sec == s) && ini_exists (file, s, ini_layout[f][s][k])) n++;
-	return n; }
-static int ini_secs_present (PIniFile *file, int f) { int n = 0;
-	for (int s = 0; s < 8 && ini_layout[f][s][0] != -1; s++) if (ini_keys_present (file, f, s) > 0) n++;
-	return n; }
+		if (!ini_exists (file, s, ini_layout[f][s][k])) return 0;
+	return 1; }
+/* what the object really holds (keys may have landed in another section when a header line was lost) */
+static int ini_keys_present (PIniFile *file, int sec) { int n = 0; for (int k = 0; k < 8; k++) if (ini_exists (file, sec, k)) n++; return n; }
+static int ini_secs_present (PIniFile *file) { int n = 0; for (int s = 0; s < 8; s++) if (ini_keys_present (file, s) > 0) n++; return n; }
 static char c_ini_new (char **av) { int d = ai (av, 1), f = ai (av, 2); LIB (); EMPTY (d); if (f < 0 || f > 2) return '-';
 	char path[512]; snprintf (path, sizeof path, "%s/ini%d.ini", scratch, f);
 	PIniFile *r = p_ini_file_new (path); if (!r) return 'F'; put (d, T_INI, r); S[d].a = f; return 'S'; }
 static char c_ini_parse (char **av) { int d = ai (av, 1), e = ai (av, 2); LIB (); NEED (d, T_INI); ERRARG (e, d);
 	pboolean ok = p_ini_file_parse (S[d].p, e_in (e)); e_out (e);
 	if (!ok) return 'F';
-	return ini_keys_present (S[d].p, (int) S[d].a, -1) == ini_nkeys_expected ((int) S[d].a) ? 'S' : 'D'; }
+	return ini_complete (S[d].p, (int) S[d].a) ? 'S' : 'D'; }
 static char strlist_class (PList *l, long want) { long len = (long) p_list_length (l), nn = 0;
 	for (PList *c = l; c; c = c->next) if (c->data) nn++;
 	if (want == 0) return 'S';
 	if (len == 0) return 'F';
 	return (len == want && nn == want) ? 'S' : 'D'; }
 static char c_ini_sections (char **av) { int s = ai (av, 1), d = ai (av, 2); LIB (); NEED (s, T_INI); EMPTY (d);
-	long want = p_ini_file_is_parsed (S[s].p) ? ini_secs_present (S[s].p, (int) S[s].a) : 0;
+	long want = p_ini_file_is_parsed (S[s].p) ? ini_secs_present (S[s].p) : 0;
 	PList *l = p_ini_file_sections (S[s].p); put (d, T_STRLIST, l); return strlist_class (l, want); }
 static char c_ini_keys (char **av) { int s = ai (av, 1), sec = ai (av, 2), d = ai (av, 3); LIB (); NEED (s, T_INI); EMPTY (d);
 	char sn[16]; snprintf (sn, sizeof sn, "s%d", sec);
-	long want = p_ini_file_is_parsed (S[s].p) ? ini_keys_present (S[s].p, (int) S[s].a, sec) : 0;
+	long want = p_ini_file_is_parsed (S[s].p) ? ini_keys_present (S[s].p, sec) : 0;
 	PList *l = p_ini_file_keys (S[s].p, sn); put (d, T_STRLIST, l); return strlist_class (l, want); }
 static const char *ini_val (int key, char *buf) { switch (key % 4) { case 0: snprintf (buf, 16, "v%d", key); return buf; case 1: return "{1 2 3}"; case 2: return "true"; default: return "1.5"; } }
 static char c_ini_string (char **av) { int s = ai (av, 1), sec = ai (av, 2), key = ai (av, 3), d = ai (av, 4); LIB (); NEED (s, T_INI); EMPTY (d);
@@ -595,7 +613,7 @@ static char c_ipc_tmpdir (char **av) { int d = ai (av, 1); LIB (); EMPTY (d);
 static char c_dir_new (char **av) { int d = ai (av, 1), w = ai (av, 2), e = ai (av, 3); LIB (); EMPTY (d); ERRARG (e, d);
 	char path[512]; snprintf (path, sizeof path, "%s/%s", scratch, w == 0 ? "d/" : "no-such-dir");
 	PDir *r = p_dir_new (path, e_in (e)); e_out (e); if (!r) return 'F'; put (d, T_DIR, r); return 'S'; }
-static char c_dir_next (char **av) { int s = ai (av, 1), d = ai (av, 2), e = ai (av, 3); LIB (); NEED (s, T_DIR); EMPTY (d); ERRARG (e, d); if (e == s) return '-';
+static char c_dir_next (char **av) { int s = ai (av, 1), d = ai (av, 2), e = ai (av, 3); LIB (); NEED (s, T_DIR); EMPTY (d); ERRARG2 (e, d, s);
 	PDirEntry *r = p_dir_get_next_entry (S[s].p, e_in (e)); e_out (e);
 	if (!r) { if (S[s].a >= DIR_ENTRIES) return 'E'; S[s].a++; return 'F'; }
 	S[s].a++; put (d, T_DIRENT, r);
@@ -644,8 +662,8 @@ static char c_sock_listen (char **av) { int d = ai (av, 1), e = ai (av, 2); LIB 
 	if (!ok) return 'F';
 	if (S[d].c == 0) { ok = p_socket_listen (S[d].p, e_in (e)); e_out (e); if (!ok) return 'F'; }
 	S[d].a = sock_port (S[d].p); S[d].b = 1; return 'S'; }
-static char c_sock_connect (char **av) { int d = ai (av, 1), srv = ai (av, 2), e = ai (av, 3); LIB (); NEED (d, T_SOCK); NEED (srv, T_SOCK); ERRARG (e, d);
-	if (e == srv || S[d].b != 0 || S[d].c != 0 || S[srv].b != 1 || S[srv].c != 0 || S[srv].sh[0].k >= 3) return '-';
+static char c_sock_connect (char **av) { int d = ai (av, 1), srv = ai (av, 2), e = ai (av, 3); LIB (); NEED (d, T_SOCK); NEED (srv, T_SOCK); ERRARG2 (e, d, srv);
+	if (S[d].b != 0 || S[d].c != 0 || S[srv].b != 1 || S[srv].c != 0 || S[srv].sh[0].k >= 3) return '-';
 	PSocketAddress *a = p_socket_address_new ("127.0.0.1", (puint16) S[srv].a); if (!a) return 'F';
 	p_socket_set_timeout (S[d].p, 3000);
 	pboolean ok = p_socket_connect (S[d].p, a, e_in (e)); e_out (e);
@@ -664,20 +682,20 @@ static char c_sock_connect_refused (char **av) { int d = ai (av, 1), e = ai (av,
 	p_socket_address_free (a);
 	if (ok) { S[d].b = 2; return 'S'; }
 	return 'F'; }
-static char c_sock_accept (char **av) { int s = ai (av, 1), d = ai (av, 2), e = ai (av, 3); LIB (); NEED (s, T_SOCK); EMPTY (d); ERRARG (e, d);
-	if (e == s || S[s].b != 1 || S[s].c != 0) return '-';
+static char c_sock_accept (char **av) { int s = ai (av, 1), d = ai (av, 2), e = ai (av, 3); LIB (); NEED (s, T_SOCK); EMPTY (d); ERRARG2 (e, d, s);
+	if (S[s].b != 1 || S[s].c != 0) return '-';
 	p_socket_set_timeout (S[s].p, S[s].sh[0].k > 0 ? 3000 : 40);          /* short: nobody is waiting, the call must time out */
 	PSocket *r = p_socket_accept (S[s].p, e_in (e)); e_out (e);
 	if (S[s].sh[0].k > 0) S[s].sh[0].k--;
 	if (!r) return 'F';
 	put (d, T_SOCK, r); S[d].b = 2; return 'S'; }
-static char sock_addr (char **av, int remote) { int s = ai (av, 1), d = ai (av, 2), e = ai (av, 3); LIB (); NEED (s, T_SOCK); EMPTY (d); ERRARG (e, d); if (e == s) return '-';
+static char sock_addr (char **av, int remote) { int s = ai (av, 1), d = ai (av, 2), e = ai (av, 3); LIB (); NEED (s, T_SOCK); EMPTY (d); ERRARG2 (e, d, s);
 	PSocketAddress *r = remote ? p_socket_get_remote_address (S[s].p, e_in (e)) : p_socket_get_local_address (S[s].p, e_in (e)); e_out (e);
 	if (!r) return 'F'; put (d, T_SADDR, r); return 'S'; }
 static char c_sock_local (char **av) { return sock_addr (av, 0); }
 static char c_sock_remote (char **av) { return sock_addr (av, 1); }
-static char c_sock_udp_echo (char **av) { int s = ai (av, 1), d = ai (av, 2), e = ai (av, 3); LIB (); NEED (s, T_SOCK); EMPTY (d); ERRARG (e, d);
-	if (e == s || S[s].b != 1 || S[s].c != 1) return '-';
+static char c_sock_udp_echo (char **av) { int s = ai (av, 1), d = ai (av, 2), e = ai (av, 3); LIB (); NEED (s, T_SOCK); EMPTY (d); ERRARG2 (e, d, s);
+	if (S[s].b != 1 || S[s].c != 1) return '-';
 	PSocketAddress *a = p_socket_address_new ("127.0.0.1", (puint16) S[s].a); if (!a) return 'F';
 	p_socket_set_timeout (S[s].p, 3000);
 	pssize n = p_socket_send_to (S[s].p, a, "ping", 4, e_in (e)); e_out (e);
@@ -694,7 +712,7 @@ static char c_sock_free (char **av) { int d = ai (av, 1); LIB (); NEED (d, T_SOC
 static char c_sock_from_fd (char **av) { int d = ai (av, 1), e = ai (av, 2); LIB (); EMPTY (d); ERRARG (e, d);
 	int raw = __real_socket (AF_INET, SOCK_STREAM, 0); if (raw < 0) return '-';
 	PSocket *r = p_socket_new_from_fd (raw, e_in (e)); e_out (e);
-	if (!r) { __real_close (raw); return 'F'; }
+	if (!r) { close (raw); return 'F'; }
 	put (d, T_SOCK, r); return 'S'; }
 
 /* --- named semaphores, shared memory, shared buffers */
@@ -707,7 +725,7 @@ static char c_sem_cycle (char **av) { int d = ai (av, 1), e = ai (av, 2); LIB ()
 	ok = p_semaphore_acquire (S[d].p, e_in (e)); e_out (e); return ok ? 'S' : 'F'; }
 static char c_sem_own (char **av) { int d = ai (av, 1); LIB (); NEED (d, T_SEM); p_semaphore_take_ownership (S[d].p); return 'S'; }
 static char c_sem_free (char **av) { int d = ai (av, 1); LIB (); NEED (d, T_SEM); p_semaphore_free (S[d].p); clr (d); return 'S'; }
-static psize shm_size (int k) { return k == 0 ? 1024 : (k == 1 ? 3 * 4096 : (k == 2 ? 512 : 0)); }
+static psize shm_size (int k) { return k == 0 ? 1024 : (k == 1 ? 3 * 4096 : (k == 2 ? 512 : (k == 3 ? 8 : 0))); }
 static char c_shm_new (char **av) { int d = ai (av, 1), n = ai (av, 2), sz = ai (av, 3), e = ai (av, 4); LIB (); EMPTY (d); NAMEARG (n); ERRARG (e, d);
 	PShm *r = p_shm_new (nm_base[n], shm_size (sz), P_SHM_ACCESS_READWRITE, e_in (e)); e_out (e);
 	if (!r) return 'F'; put (d, T_SHM, r); return 'S'; }
@@ -753,14 +771,11 @@ static volatile int th_done;
 static PUThreadKey *th_key;
 static void *th_body (void *arg) {
 	long body = (long) (psize) arg;
-	if (body >= 1) {
-		p_uthread_current ();                       /* the thread's own object: already in its TLS, no allocation */
-		if (th_key != NULL) {
-			ppointer v = p_malloc (8);
-			if (v != NULL) {
-				p_uthread_set_local (th_key, v);    /* released by the key's destructor (p_free) when the thread exits */
-				if (p_uthread_get_local (th_key) != v) p_free (v);
-			}
+	if (body >= 1 && th_key != NULL) {
+		ppointer v = p_malloc (8);
+		if (v != NULL) {
+			p_uthread_set_local (th_key, v);        /* released by the key's destructor (p_free) when the thread exits */
+			if (p_uthread_get_local (th_key) != v) p_free (v);
 		}
 	}
 	__atomic_store_n (&th_done, 1, __ATOMIC_SEQ_CST);
@@ -772,9 +787,10 @@ static int ntasks (void) { int n = 0; DIR *d = opendir ("/proc/self/task"); if (
 static char c_thread_run (char **av) { int d = ai (av, 1), joinable = ai (av, 2), body = ai (av, 3), k = ai (av, 4); LIB (); EMPTY (d);
 	if (k >= 0) NEED (k, T_TLS);
 	th_key = k >= 0 ? (PUThreadKey *) S[k].p : NULL;
-	th_done = 0;
+	th_done = 0; th_go = 0;
 	int base = ntasks ();
 	PUThread *t = p_uthread_create (th_body, PTR (body), joinable ? TRUE : FALSE, "t");
+	__atomic_store_n (&th_go, 1, __ATOMIC_SEQ_CST);
 	if (!t) return 'F';
 	if (joinable) p_uthread_join (t);
 	for (int i = 0; i < 4000 && (!__atomic_load_n (&th_done, __ATOMIC_SEQ_CST) || ntasks () > base); i++) usleep (500);
@@ -806,8 +822,9 @@ static char c_tls_free (char **av) { int d = ai (av, 1); LIB (); NEED (d, T_TLS)
 static int have_loader (void) { for (int i = 0; i < NSLOT; i++) if (S[i].t == T_LOADER) return 1; return 0; }
 static char c_loader_new (char **av) { int d = ai (av, 1), w = ai (av, 2); LIB (); EMPTY (d); if (have_loader ()) return '-';
 	char path[512]; snprintf (path, sizeof path, "%s/%s", scratch, w == 0 ? "libtiny.so" : (w == 1 ? "no-such-lib.so" : "notlib.so"));
+	int scripted = is_armed ("dlopen");
 	PLibraryLoader *r = p_library_loader_new (path);
-	if (!r) { if (w == 2) dl_pending = 1; return 'F'; }
+	if (!r) { if (w == 2 && !scripted) dl_pending = 1; return 'F'; }
 	put (d, T_LOADER, r); return 'S'; }
 static char c_loader_sym (char **av) { int d = ai (av, 1); LIB (); NEED (d, T_LOADER);
 	return p_library_loader_get_symbol (S[d].p, "tiny_answer") != NULL ? 'S' : 'F'; }
